@@ -25,8 +25,11 @@ pub fn boundary(ty: &Ty) -> Vec<Option<i128>> {
             if let Ty::Dec { s, .. } = ty {
                 if *s > 0 {
                     let one = 10i128.pow(*s as u32);
-                    v.extend([one, -one, one + 1, one / 2, -(one / 2), one * 3 / 2]);
+                    v.extend([one, -one, one + 1, one / 2, -(one / 2), one * 3 / 2, -(one * 3 / 2), one / 2 - 1, one * 5 / 2]);
                 }
+            }
+            if matches!(ty, Ty::Ts(_) | Ty::Date32 | Ty::Date64) {
+                v.extend([999, 1000, 1001, 1500, -999, -1000, -1001, -1500, 86_400_000, 86_399_999, -86_400_001, 1_500_000_000]);
             }
             v.sort();
             v.dedup();
@@ -45,7 +48,14 @@ pub struct SmtVal {
 }
 
 pub fn smt_eval(duo: &mut Duo, x: &X, cols: &[(String, Ty, bool)], row: &[Option<i128>]) -> R<SmtVal> {
+    smt_eval_mode(duo, x, cols, row, false)
+}
+
+/// `direct_div`: use the division circuit (instant on concrete operands) instead of the fresh-quotient
+/// encoding; the grid uses the fresh-quotient encoding on every 8th row so that it is validated as well
+pub fn smt_eval_mode(duo: &mut Duo, x: &X, cols: &[(String, Ty, bool)], row: &[Option<i128>], direct_div: bool) -> R<SmtVal> {
     let mut enc = Enc::new("g");
+    enc.direct_div = direct_div;
     for (n, t, nl) in cols {
         enc.declare_col(n, t, *nl);
     }
@@ -232,6 +242,33 @@ pub fn templates(thorough: bool) -> Vec<(String, X, Vec<(String, Ty, bool)>)> {
             }
         }
     }
+    // temporal and decimal conversions
+    let conv: Vec<(Ty, Ty)> = vec![
+        (Ty::Ts(0), Ty::Ts(3)),
+        (Ty::Ts(3), Ty::Ts(1)),
+        (Ty::Ts(1), Ty::Ts(2)),
+        (Ty::Ts(2), Ty::Ts(0)),
+        (Ty::Date32, Ty::Date64),
+        (Ty::Date32, Ty::Ts(1)),
+        (Ty::Date32, Ty::Ts(3)),
+        (Ty::Dec { p: 10, s: 2 }, Ty::Int { bits: 32, signed: true }),
+        (Ty::Dec { p: 10, s: 2 }, Ty::Int { bits: 64, signed: true }),
+        (Ty::Dec { p: 10, s: 2 }, Ty::Int { bits: 8, signed: false }),
+        (Ty::Dec { p: 5, s: 0 }, Ty::Int { bits: 16, signed: true }),
+        (Ty::Dec { p: 10, s: 2 }, Ty::Dec { p: 10, s: 0 }),
+        (Ty::Dec { p: 10, s: 2 }, Ty::Dec { p: 4, s: 1 }),
+    ];
+    for (from, to) in conv {
+        let cols = vec![("t".to_string(), from.clone(), true), ("u".to_string(), to.clone(), true)];
+        for try_ in [false, true] {
+            out.push((
+                format!("{}CAST(t: {from} AS {to})", if try_ { "TRY_" } else { "" }),
+                X::Cast { e: Box::new(col("t", &from)), to: to.clone(), try_ },
+                cols[..1].to_vec(),
+            ));
+        }
+        out.push((format!("CAST(t: {from} AS {to}) < u"), bin(Lt, X::Cast { e: Box::new(col("t", &from)), to: to.clone(), try_: false }, col("u", &to)), cols.clone()));
+    }
     let _ = i32t;
     out
 }
@@ -260,18 +297,47 @@ pub fn rows_for(cols: &[(String, Ty, bool)]) -> Vec<Vec<Option<i128>>> {
     rows
 }
 
-pub fn validate(duo: &mut Duo, thorough: bool) -> GridReport {
+/// grid validation, templates spread over `threads` solver sessions
+pub fn validate(_duo: &mut Duo, thorough: bool) -> GridReport {
+    let threads: usize = std::env::var("VERIF_THREADS").ok().and_then(|s| s.parse().ok()).unwrap_or(8);
+    let all = templates(thorough);
+    let mut chunks: Vec<Vec<(String, X, Vec<(String, Ty, bool)>)>> = (0..threads).map(|_| vec![]).collect();
+    for (i, t) in all.into_iter().enumerate() {
+        chunks[i % threads].push(t);
+    }
     let mut rep = GridReport { templates: 0, points: 0, mismatches: vec![], unsupported: vec![] };
-    for (desc, x, cols) in templates(thorough) {
+    std::thread::scope(|s| {
+        let hs: Vec<_> = chunks
+            .into_iter()
+            .map(|c| {
+                s.spawn(move || {
+                    let mut duo = Duo::new(30000, false);
+                    validate_some(&mut duo, c)
+                })
+            })
+            .collect();
+        for h in hs {
+            let r = h.join().unwrap();
+            rep.templates += r.templates;
+            rep.points += r.points;
+            rep.mismatches.extend(r.mismatches);
+            rep.unsupported.extend(r.unsupported);
+        }
+    });
+    rep
+}
+
+fn validate_some(duo: &mut Duo, some: Vec<(String, X, Vec<(String, Ty, bool)>)>) -> GridReport {
+    let mut rep = GridReport { templates: 0, points: 0, mismatches: vec![], unsupported: vec![] };
+    for (desc, x, cols) in some {
         rep.templates += 1;
         let e = lx::x_to_expr(&x);
         let mut bad_here = 0;
-        for row in rows_for(&cols) {
-            // keep the grid small for 3-column templates
+        for (ri, row) in rows_for(&cols).into_iter().enumerate() {
             let (aschema, batch) = lx::one_row_batch(&cols, &row);
             let dfs = DFSchema::try_from(aschema.as_ref().clone()).unwrap();
             let real = lx::real_eval(&e, &dfs, &batch);
-            let sm = match smt_eval(duo, &x, &cols, &row) {
+            let sm = match smt_eval_mode(duo, &x, &cols, &row, ri % 8 != 0) {
                 Ok(s) => s,
                 Err(u) => {
                     rep.unsupported.push(format!("{desc}: {}", u.0));
